@@ -305,6 +305,10 @@ def comps_log(comps):
 
 
 # ----------------------------------------------------------------------------- the twin
+class CtorRejected(Exception):
+    """A labware of the program (always a valid specification) could not be constructed."""
+
+
 class Twin:
     def __init__(self, prog):
         rt = robotools()
@@ -315,7 +319,10 @@ class Twin:
         self.lws = []
         self._shared_arrays = {}
         for spec in prog["lw"]:
-            self.lws.append(self._make_lw(spec))
+            try:
+                self.lws.append(self._make_lw(spec))
+            except Exception as e:  # noqa
+                raise CtorRejected(f"{spec['name']}: {type(e).__name__}: {e}")
         wlp = prog["wl"]
         cls = {"evo": rt.EvoWorklist, "fluent": rt.FluentWorklist, "base": rt.BaseWorklist}[prog["dev"]]
         self.path = None
@@ -1024,7 +1031,15 @@ def execute(prog):
     """Run a program; returns the trace (header + events) for Trace_Twin."""
     global SNAP
     SNAP = bool(prog.get("snap", False) or prog.get("millis", False))  # 0.001 uL is not a binary fraction
-    tw = Twin(prog)
+    try:
+        tw = Twin(prog)
+    except CtorRejected as e:
+        # nothing of the program can run; the trace consists of the rejected (valid) constructor call, judged by C20.accept
+        SNAP = False
+        return {"id": prog["id"], "dev": prog["dev"], "unitc": 1, "k": 1, "pair": bool(prog.get("pair", False)), "millis": False,
+                "wl": {"maxv": 1, "maxc": 1, "autosplit": True, "diti": False}, "lw": [], "splitting": False, "ctorfail": True,
+                "ctorerror": str(e)[:300],
+                "flags": {"records": False, "robot": False, "comp": False, "norm": False, "file": False, "fullhist": False}, "events": []}
     try:
         unit = tw.unit
         flags = dict(prog.get("flags", {}))
@@ -1059,6 +1074,7 @@ def execute(prog):
         flags["robot"] = flags["robot"] and flags["records"]
         hdr["flags"] = flags
         hdr["splitting"] = splitting
+        hdr["ctorfail"] = False
         events = []
         pres = prog.get("pres", [])
         for i, op in enumerate(prog["ops"]):
